@@ -209,9 +209,9 @@ def inline_body(F, body, depth=3, _stack=None, keep=(), only=None):
         blk["stmts"] = blk["stmts"] + stmts
         blk["term"] = {"k": "goto", "target": bo, "span": span, "inlined_call": callee.path}
         work.extend(range(bo, bo + len(craw["blocks"])))
-    if not changed:
-        return body
     thread_jumps(raw)
+    if not changed and not any(b_.get("jt_clone") is not None or b_["term"].get("jt_folded") for b_ in raw["blocks"]):
+        return body
     nb = Body(raw, body.crate)
     nb.unit = getattr(body, "unit", None)
     nb.inlined = True
@@ -422,6 +422,28 @@ def thread_jumps(raw, max_chain=48, budget=160):
                         back.append(q)
                         if len(preds.get(q, [])) >= 2 and blocks[q].get("jt_clone") is None:
                             cands.append(q)
+        # flag merges anywhere in the body (`matches!(..)`, `a && b`, `let ok = if .. { true } else { false }`): a switch block with several
+        # predecessors that contains no real work of its own and tests a local which its predecessors set to constants
+        for m in range(len(blocks)):
+            mb = blocks[m]
+            if mb.get("dead") or mb.get("cleanup") or mb.get("jt_clone") is not None or m in cands or mb["term"]["k"] != "switch":
+                continue
+            if len(preds.get(m, [])) < 2 or mb["term"].get("discr_ty") != "bool":
+                continue
+            if any(s_["k"] == "assign" and s_["rv"]["k"] not in ("use",) for s_ in mb["stmts"]):
+                continue
+            if any("debug_assert" in m_ for s_ in mb["stmts"] for m_ in s_.get("macros", [])):
+                continue
+            dl = mb["term"]["discr"].get("pl", {}).get("l") if mb["term"]["discr"].get("k") in ("copy", "move") else None
+            if dl is None:
+                continue
+            setters = 0
+            for q in preds[m]:
+                for s_ in blocks[q]["stmts"]:
+                    if s_["k"] == "assign" and s_["pl"]["l"] == dl and not s_["pl"]["p"] and s_["rv"]["k"] == "use" and s_["rv"]["op"].get("k") == "const":
+                        setters += 1
+            if setters >= 2:
+                cands.append(m)
         # blocks of inlined code that build a Result / Option / Poll literal themselves (`Err(e)?`, `return Ready(..)`): foldable in place
         lits = []
         for m in range(len(blocks)):
